@@ -318,7 +318,7 @@ func init() {
 		ID: "C07", Level: "exploration", Variant: "N", Design: "DESIGN.md §5 C07",
 		Rule:      "Each run draws a deb822 document from a model (0..6 paragraphs, field names, empty or non-empty first line, space/tab continuation lines with kept indentation, ' .' lines, comments in every legal position, blank-line runs, LF or CRLF, final newline or not, occasionally lines > 4 KiB) and feeds the same bytes to four consumers (Next, All, Unmarshal into a slice, Decoder), each behind its own simulated reader with its own delivery schedule. Configurations: fault-free (exact equality with the model), truncation at byte k (equality with an independent reference reader of the prefix when that prefix is well-formed), EIO at byte k, and arbitrary input (mutated documents and raw bytes; invariant and consumer agreement).",
 		Run:       runC07,
-		QuickRuns: 120000, QuickSecs: 30, ThoroughRuns: 6_000_000, ThoroughSecs: 900,
+		QuickRuns: 300000, QuickSecs: 30, ThoroughRuns: 6_000_000, ThoroughSecs: 900,
 		Components: map[string]interface{}{
 			"real": []string{"pault.ag/go/debian/control (NewParagraphReader, Next, All, Unmarshal, NewDecoder, Decode)", "bufio (stdlib)"},
 			"stub": []string{"simio.Reader (delivery schedule, EOF placement, truncation, EIO)"},
